@@ -168,6 +168,25 @@ def p_first_line(v):
     return None
 
 
+def p_field_cycles(v):
+    """the field classes built on the codec: on a policy-conformant value, parse - render - parse - render is stable from
+    the first rendering on, and the second object equals the first (for the License field when the value has a short name)"""
+    if not is_policy_value(v):
+        return None
+    for cls in (debcon.FormattedTextField, debcon.DescriptionField, dcopy.LicenseField):
+        if cls is dcopy.LicenseField and is_blank(v.split('\n')[0]):
+            continue
+        o = cls.from_value(v)
+        d1 = o.dumps()
+        o2 = cls.from_value(d1)
+        d2 = o2.dumps()
+        if d1 != d2:
+            return '%s: the rendering %r of %r is rendered %r after another parse' % (cls.__name__, d1, v, d2)
+        if o2 != o:
+            return '%s: %r parsed from %r, %r parsed from its rendering' % (cls.__name__, o, v, o2)
+    return None
+
+
 def p_instance(v):
     """a field object handed to from_value of its own class stands for itself: same name / synopsis, same text, same
     rendering (the copyright classes accept an instance where a value is expected)"""
@@ -232,6 +251,7 @@ def run(ctx):
     fails += [('fixpoint', x, w) for x, w in ctx.prop('prop:fixpoint', texts, p_fixpoint)]
     fails += [('first_line', x, w) for x, w in ctx.prop('prop:first_line', texts, p_first_line)]
     fails += [('instance', x, w) for x, w in ctx.prop('prop:from_value(instance)', texts[::3], p_instance)]
+    fails += [('field_cycles', x, w) for x, w in ctx.prop('prop:field-cycles', texts, p_field_cycles)]
     # texts beyond 1 MiB in which an empty line (or a line end) sits exactly on every multiple of 4096 characters
     def para(i):
         return ['paragraph %d of a long text' % i, 'with a second line', 'and a third']
